@@ -13,6 +13,7 @@
 (*       [[addr, [v1..v6]]..]: the harness put v_k at addr before cycle k;   *)
 (*       snaps = [[addr, [s1..sn]]..]: what was at addr after cycle k.       *)
 (*  [3, a, f, a2, f2]   a row of the repository's daa.csv                    *)
+(*  [0, ...]            a unit outside the precondition (not judged)          *)
 EXTENDS SM83, TLC, Json, IOUtils
 
 Scens == ndJsonDeserialize(IOEnv.TRACE)
@@ -99,7 +100,8 @@ Check3(e) == LET d == Daa(e[2], e[3]) IN d.res = e[4] /\ d.f = e[5]
 
 Next == /\ l <= Len(Scens[sc].ev) /\ l' = l + 1 /\ UNCHANGED sc
         /\ LET e == Ev IN
-           CASE e[1] = 1 -> Check1(e)
+           CASE e[1] = 0 -> TRUE        \* recorded but outside the precondition: not judged
+             [] e[1] = 1 -> Check1(e)
              [] e[1] = 2 -> Check2(e)
              [] e[1] = 3 -> Check3(e)
 
